@@ -32,14 +32,16 @@ void h_lock_slow (void) {
 	vp_g.l1_check = 1;
 	lt = vp_nondet_bool () ? nsync_writer_type_ : nsync_reader_type_;
 	nsync_mu_lock_slow_ (&the_mu, &the_w, waited ? MU_DESIG_WAKER : 0, lt);
+	VP_CANARY ();
 }
 void h_release_spinlock (void) {
 	setup ((int) (vp_nondet_u32 () % 3), 1, vp_nondet_bool ());
 	mu_release_spinlock (&the_mu);
+	VP_CANARY ();
 }
-void h_trylock (void) { setup (VP_NONE, 0, 0); (void) nsync_mu_trylock (&the_mu); }
-void h_rtrylock (void) { setup (VP_NONE, 0, 0); (void) nsync_mu_rtrylock (&the_mu); }
-void h_lock (void) { setup (VP_NONE, 0, 0); nsync_mu_lock (&the_mu); }
-void h_rlock (void) { setup (VP_NONE, 0, 0); nsync_mu_rlock (&the_mu); }
-void h_unlock (void) { setup (VP_WRITER, 0, 0); vp_g.release_ctx = 1; nsync_mu_unlock (&the_mu); }
-void h_runlock (void) { setup (VP_READER, 0, 0); vp_g.release_ctx = 1; nsync_mu_runlock (&the_mu); }
+void h_trylock (void) { setup (VP_NONE, 0, 0); (void) nsync_mu_trylock (&the_mu); VP_CANARY (); }
+void h_rtrylock (void) { setup (VP_NONE, 0, 0); (void) nsync_mu_rtrylock (&the_mu); VP_CANARY (); }
+void h_lock (void) { setup (VP_NONE, 0, 0); nsync_mu_lock (&the_mu); VP_CANARY (); }
+void h_rlock (void) { setup (VP_NONE, 0, 0); nsync_mu_rlock (&the_mu); VP_CANARY (); }
+void h_unlock (void) { setup (VP_WRITER, 0, 0); vp_g.release_ctx = 1; nsync_mu_unlock (&the_mu); VP_CANARY (); }
+void h_runlock (void) { setup (VP_READER, 0, 0); vp_g.release_ctx = 1; nsync_mu_runlock (&the_mu); VP_CANARY (); }
